@@ -58,7 +58,7 @@ func (eng) CoqCaseType(mode string) string { return "Check_job.case" }
 func (eng) CoqRun(mode string) string      { return "Check_job.run" }
 func (eng) Rule(mode string) string {
 	if mode == "slot" {
-		return "a real operator with 1..3 upstream source runners receives barriers of checkpoint a from a strict subset (possibly empty) of its runners, is deployed again (surviving worker), then receives all barriers of checkpoint b; non-trivial: at least one barrier was registered before the second deploy"
+		return "a real operator with 1..3 upstream source runners receives barriers of checkpoint a from a strict subset (possibly empty) of its runners, is deployed again (surviving worker), optionally receives stale barriers of a from a strict subset after the redeploy (known finding), then receives all barriers of checkpoint b; a retention update is sent before the first deploy; parking is observed at the operator.align.park hook, not by time-out; non-trivial: at least one barrier was registered before the second deploy"
 	}
 	return "histories over WorkerCount 1..3 with 0..2 standby nodes per kind: registrations in random order, heartbeats, graceful deregistration and kills (heartbeat expiry by advancing the frozen clock) of assembly members before / during deployment (Deploy gated) and during an in-flight checkpoint (some acks delivered), failed deployments, checkpoint rounds with acks in random order, stale / foreign / duplicate acks. Non-trivial: at least one deployment completed and at least one fault or checkpoint happened; distinct by hash of the op list."
 }
